@@ -20,6 +20,9 @@ _BASE = {}
 EVKEYS = ("ev", "c", "r", "vm", "t0", "t1", "exc")
 SIDE_OF = {1: ("hv", "lv"), -1: ("lv", "lv")}       # coeff -> (tap_side, controlled side)   trafo_control.py:104-121
 SIDE_ALT = {1: ("lv", "hv"), -1: ("hv", "hv")}
+# three-winding transformer (real plant only): tap at hv controls the mv voltage like a 2W transformer (coeff 1); a tap at the
+# mv terminal acts on the mv voltage in the opposite sense (coeff -1)            trafo_control.py:104-121
+SIDE_3W = {1: ("hv", "mv"), -1: ("mv", "mv")}
 
 
 def ev(e, c=0, r=True, vm=0, t0=0, t1=0, exc=""):
@@ -47,8 +50,21 @@ def feeder():
     return net
 
 
-def trafo_bus(net, t, side):
-    return int(net.trafo.at[t, side + "_bus"])
+def trafo_bus(net, t, side, tab="trafo"):
+    return int(net[tab].at[t, side + "_bus"])
+
+
+def with_trafo3w(net):
+    """replace T1 (110/20) by a three-winding transformer 110/20/10 with a small load at the 10 kV side"""
+    import pandapower as pp
+    from ..templates import trafo3w
+    b10 = pp.create_bus(net, 10.0)
+    net.trafo.at[0, "in_service"] = False
+    trafo3w(pp, net, 1, 2, b10, vn=(110.0, 20.0, 10.0), sn_hv_mva=40.0, sn_mv_mva=25.0, sn_lv_mva=15.0, vk_hv_percent=12.0,
+            vk_mv_percent=10.0, vk_lv_percent=10.0, vkr_hv_percent=0.4, vkr_mv_percent=0.4, vkr_lv_percent=0.4,
+            tap_side="hv", tap_neutral=0, tap_min=-2, tap_max=2, tap_step_percent=1.5, tap_pos=0, tap_changer_type="Ratio")
+    pp.create_load(net, b10, 1.0, 0.2)
+    net.trafo3w["tap_pos"] = net.trafo3w["tap_pos"].astype(float)
 
 
 def build(case):
@@ -57,25 +73,31 @@ def build(case):
     net = copy.deepcopy(feeder())
     cfg = case["cfg"]
     out = []
+    if case.get("t3w"):
+        with_trafo3w(net)
     for k, c in enumerate(cfg["ctrl"]):
         cid = k + 1
-        t = k                      # controller k drives transformer k
+        tab, ti = ("trafo3w", 0) if (case.get("t3w") and k == 0) else ("trafo", k)      # controller k drives transformer k
+        t = (tab, ti)
         kind = c["kind"]
         if kind in ("disc", "cont"):
-            tap_side, side = (SIDE_ALT if case.get("alt_sides") and k == 0 else SIDE_OF)[c["coeff"]]
-            net.trafo.at[t, "tap_side"] = tap_side
-            net.trafo.at[t, "tap_min"] = c["tmin"] // 1000
-            net.trafo.at[t, "tap_max"] = c["tmax"] // 1000
-            net.trafo.at[t, "tap_pos"] = cfg["tap0"][k] / 1000.0
-            net.trafo.at[t, "in_service"] = not c["oos"]
+            if tab == "trafo3w":
+                tap_side, side = SIDE_3W[c["coeff"]]
+            else:
+                tap_side, side = (SIDE_ALT if case.get("alt_sides") and k == 0 else SIDE_OF)[c["coeff"]]
+            net[tab].at[ti, "tap_side"] = tap_side
+            net[tab].at[ti, "tap_min"] = c["tmin"] // 1000
+            net[tab].at[ti, "tap_max"] = c["tmax"] // 1000
+            net[tab].at[ti, "tap_pos"] = cfg["tap0"][k] / 1000.0
+            net[tab].at[ti, "in_service"] = not c["oos"]
             if kind == "disc":
-                ctrl = DiscreteTapControl(net, t, vm_lower_pu=c["lo"] / 1e6, vm_upper_pu=c["hi"] / 1e6, side=side,
+                ctrl = DiscreteTapControl(net, ti, vm_lower_pu=c["lo"] / 1e6, vm_upper_pu=c["hi"] / 1e6, side=side, element=tab,
                                           level=c["level"], order=c["order"], in_service=c["ins"])
             else:
-                ctrl = ContinuousTapControl(net, t, vm_set_pu=c["set"] / 1e6, tol=c["tol"] / 1e6, side=side,
+                ctrl = ContinuousTapControl(net, ti, vm_set_pu=c["set"] / 1e6, tol=c["tol"] / 1e6, side=side, element=tab,
                                             level=c["level"], order=c["order"], in_service=c["ins"],
                                             check_tap_bounds=c["bounds"])
-            out.append((cid, ctrl, kind, t, trafo_bus(net, t, side)))
+            out.append((cid, ctrl, kind, t, trafo_bus(net, ti, side, tab)))
         else:
             ctrl = ConstControl(net, "load", "p_mw", element_index=0, level=c["level"], order=c["order"], in_service=c["ins"])
             ctrl.applied = bool(cfg["applied0"][k])
@@ -95,7 +117,7 @@ def instrument(net, ctrls, log):
         return NAN if math.isnan(x) else int(round(x * 1e6))
 
     def tap_of(t):
-        return int(round(float(net.trafo.tap_pos.at[t]) * 1000))
+        return int(round(float(net[t[0]].tap_pos.at[t[1]]) * 1000))
 
     for cid, ctrl, kind, t, bus in ctrls:
         def mk(cid=cid, ctrl=ctrl, kind=kind, t=t, bus=bus):
@@ -206,7 +228,7 @@ def observe(case):
             except Exception:  # noqa
                 x = float("nan")
             vm = NAN if math.isnan(x) else int(round(x * 1e6))
-            tp = int(round(float(net.trafo.tap_pos.at[t]) * 1000))
+            tp = int(round(float(net[t[0]].tap_pos.at[t[1]]) * 1000))
         fin.append({"vm": vm, "tap": tp, "conv": conv})
     fresh = 0
     if returned and not stub:
@@ -245,7 +267,7 @@ def real_cases(cfgs, rnd, n):
         for k in (0, 1):
             if c["ctrl"][k]["kind"] != "const":
                 c["ctrl"][k]["tmin"], c["ctrl"][k]["tmax"] = -2000, 2000
-        out.append({"cfg": c, "plant": "real", "entry": rnd.choice(["run_control", "runpp"]),
+        out.append({"cfg": c, "plant": "real", "entry": rnd.choice(["run_control", "runpp"]), "t3w": rnd.random() < 0.4,
                     "vm_grid": rnd.choice([960000, 1000000, 1045000]), "load_scale": rnd.choice([300, 1000, 1600])})
     return out
 
@@ -308,7 +330,8 @@ def run(tier, seed, replay=None):
                     for c in (cases[0], cases[-1])],
     }
     v.assumptions = ["two controllers (DiscreteTapControl / ContinuousTapControl / ConstControl) on 2W transformers; "
-                     "CharacteristicControl and trafo3w are modelled in ControlLoopDef but not instantiated",
+                     "a three-winding transformer (tap at hv or mv, mv side controlled) replaces T1 in 40 % of the real-plant cases; "
+                     "CharacteristicControl is modelled in ControlLoopDef but not instantiated",
                      "fresh-result clause compared on res_bus/res_trafo/res_line/res_ext_grid with 50 micro-units",
                      "decisions within 3 micro-pu of a band edge are accepted either way on real power flows"]
     return v.finish()
